@@ -3,7 +3,7 @@
    identifier in Z and every array length; and, for the guards that are wrong in /repo,
    a witness that the faithful model does reach OOB. *)
 From Coq Require Import List ZArith Bool Lia.
-From TskVerif Require Import Base.Common Gen.Generated C09.Guards.
+From TskVerif Require Import Base.Common C09.Guards.
 Import ListNotations.
 Open Scope Z_scope.
 
